@@ -266,6 +266,9 @@ class Slicer:
         Raises:
             ValueError: Shape or size doesn't match.
         """
+        if isinstance(self.slices, list) and not isinstance(values, list):
+            # a list of wells is set element by element, whatever container the values come in
+            values = list(values.flatten()) if isinstance(values, np.ndarray) else [values]
         if isinstance(values, list):
             if len(values) != len(self.slices):
                 raise ValueError("Shape or size of values doesn't match.")
